@@ -51,7 +51,7 @@ func vhCheckNested(parent *Array, addr Address, pm []vhItem, cm []uint64, childV
 	}
 }
 
-//vh:prop C10 C01 C09
+//vh:prop C10 C01 C09 C06
 //vh:param ops 2 3
 //vh:param sib 1 2
 func VH_C10_NestedArrayHistory() {
